@@ -189,7 +189,8 @@ def opsC09 : List (String × Handler) := [
         let cs : List (CSel Nat Nat) := correctors ka ca
         let lk := (List.range nres).map fun i => match lossKernel ks nres i with | some c => fmtK c | none => "-"
         let sc := (List.range nres).map fun i => match stepCorrector cs i with | some c => fmtC c | none => "-"
-        return " ".intercalate (lk ++ sc)
+        -- last token: E1 = empty kernel list (`loss` / `step` raise IndexError), E0 otherwise
+        return " ".intercalate (lk ++ sc ++ [if emptyKernelList ks then "E1" else "E0"])
       | _ => throw "arity")
 ]
 
